@@ -644,9 +644,73 @@ def unknown_type_guard(ctx, rule):
                             'class table is indexed')
 
 
+def buffer_slices(ctx, rule, cm):
+    """Decoding is linear only if no decoder copies the message: a slice of
+    the buffer with an open end (`data[:end]`, `data[offset:]`) costs the
+    length of the MESSAGE, once per value decoded - quadratic for a message
+    of many small arrays or strings.  A slice with both ends given
+    (`data[offset + 4: offset + 4 + slen]`) costs what the value occupies."""
+    prog = ctx.prog
+    n = 0
+    # (function, name of the parameter that holds the message buffer): the
+    # decoders' second parameter, followed through the helpers they hand it to
+    bufp = {}
+    work = []
+    for fi in list(cm.dec.values()) + [prog.func('marshal.unmarshal')]:
+        ps = fi.params()
+        if len(ps) >= 2:
+            work.append((fi, ps[1]))
+    while work:
+        fi, pn = work.pop()
+        if pn in bufp.get(fi.qualname, (None, set()))[1]:
+            continue
+        bufp.setdefault(fi.qualname, (fi, set()))[1].add(pn)
+        for cs in CG.edges_from(prog, fi):
+            for i, a in enumerate(cs.node.args):
+                if isinstance(a, ast.Name) and a.id == pn:
+                    for t in cs.targets:
+                        if t.module.name != 'marshal':
+                            continue
+                        tp = t.params()
+                        k = i + (1 if t.is_method and not isinstance(
+                            cs.node.func, ast.Name) else 0)
+                        if k < len(tp):
+                            work.append((t, tp[k]))
+    for q, (fi, names) in sorted(bufp.items()):
+        buf = set(names)
+        # names the buffer is re-bound to
+        for a in prog._iter_scope(fi.node):
+            if isinstance(a, ast.Assign) and len(a.targets) == 1 and \
+                    isinstance(a.targets[0], ast.Name) and any(
+                        isinstance(x, ast.Name) and x.id in buf
+                        for x in ast.walk(a.value)) and isinstance(
+                            a.value, (ast.Subscript, ast.Name)):
+                buf.add(a.targets[0].id)
+        for sub in prog._iter_scope(fi.node):
+            if isinstance(sub, ast.Subscript) and \
+                    isinstance(sub.slice, ast.Slice) and \
+                    isinstance(sub.value, ast.Name) and sub.value.id in buf:
+                n += 1
+                sl = sub.slice
+                ok = sl.lower is not None and sl.upper is not None and not (
+                    isinstance(sl.lower, ast.Constant))
+                ctx.ob(rule, q, 'buffer-slice-is-value-sized@%s'
+                       % ast.unparse(sub)[:40], ok,
+                       '%s copies the message buffer up to / from a position '
+                       '(an open-ended slice) every time a value of this '
+                       'type is decoded: the cost of decoding is no longer '
+                       'proportional to the length of the message (line %d)'
+                       % (ast.unparse(sub)[:60], sub.lineno))
+    ctx.extra['buffer_slices'] = n
+    if n < 1:
+        raise AnalysisError('the string decoders\' slices of the buffer were '
+                            'not found (anchor changed)')
+
+
 def run(ctx):
     prog = ctx.prog
     cm = CodecModel(prog)
+    buffer_slices(ctx, 'C05.D3', cm)
     bounds = Bounds(ctx, cm)
     ctx.extra['decoder_size_lower_bounds'] = dict(bounds.lb)
     # every reported size has a lower bound: the loops over elements only
